@@ -44,6 +44,7 @@ VARIANTS = {
     'oidtype': 'codegen',     # OID parent names a type
     'latefail': 'codegen',    # fails in the generator after most objects were registered (undefined bit in a DEFVAL)
     'lexpct': 'parser',       # illegal character that is also a format directive
+    'augunk': 'symtab',       # a row listed before its table (legal) that AUGMENTS a row defined nowhere and not imported
 }
 DEFECTS = [v for v in VARIANTS if v != 'ok']
 
@@ -136,9 +137,11 @@ def render(spec, allspecs=None):
     """-> ASN.1 text of one module (with its defect, if any)."""
     name = spec['name']
     v = spec.get('variant', 'ok')
+    if v == 'augunk' and spec.get('smiv1'):
+        v = 'unkparent'        # AUGMENTS is an SMIv2 clause
     if v == 'empty':
         return '-- nothing here but a comment\n\n'
-    me = root_sym(name)
+    me = spec.get('rootname') or root_sym(name)      # 'rootname': the root node carries another name than importers expect (a later release renamed it)
     lines = []
     imps = list(spec.get('imports', []))
     smi_syms = ['OBJECT-TYPE', 'enterprises', 'Integer32']
@@ -276,6 +279,14 @@ def render(spec, allspecs=None):
                   '    DEFVAL { { nosuchbit } }', '    ::= { %s 70 }' % me, '']
     if v == 'lexpct':
         lines.append('% 100% wrong')
+    if v == 'augunk':
+        t_ = sym(name)
+        lines += ['%sAugEntry OBJECT-TYPE' % t_, '    SYNTAX %sAugEntry' % cap(name), '    MAX-ACCESS not-accessible', '    STATUS current',
+                  '    DESCRIPTION "a row that extends the rows of a table nobody defines"', '    AUGMENTS { %sNoSuchRowAnywhere }' % t_, '    ::= { %sAugTable 1 }' % t_, '',
+                  '%sAugEntry ::= SEQUENCE { %sAugCol Integer32 }' % (cap(name), t_), '',
+                  '%sAugTable OBJECT-TYPE' % t_, '    SYNTAX SEQUENCE OF %sAugEntry' % cap(name), '    MAX-ACCESS not-accessible', '    STATUS current', '    DESCRIPTION "the table"',
+                  '    ::= { %s 90 }' % me, '',
+                  '%sAugCol OBJECT-TYPE' % t_, '    SYNTAX Integer32', '    MAX-ACCESS read-only', '    STATUS current', '    DESCRIPTION "a column"', '    ::= { %sAugEntry 1 }' % t_, '']
     if v in ('syntax', 'lex', 'forbidden') and not arcs:
         lines.append({'syntax': '%sx OBJECT IDENTIFIER { %s 1 }' % (me, me), 'lex': '@', 'forbidden': 'x OBJECT IDENTIFIER ::= { FALSE 1 }'}[v])
     if v == 'dupsym':
